@@ -140,21 +140,33 @@ class ScopeAlg (σ : Type) where
 
 open ScopeAlg
 
-abbrev Out (σ : Type) := St × Except Err (V × σ)
+/-! ### the evaluation monad: state survives exceptions, as in Python -/
 
-/-- a glomit method returns a value; the scope a chain continues from is the spec's own -/
-def withScope {σ} (o : St × Except Err V) (sc : σ) : Out σ :=
-  match o with
-  | (st, .ok v) => (st, .ok (v, sc))
-  | (st, .error e) => (st, .error e)
+def M (α : Type) : Type := St → St × Except Err α
 
-/-- the value of a nested `scope[glom](…)` call (its scope is dropped) -/
-def valOf {σ} (o : Out σ) : St × Except Err V :=
-  match o with
-  | (st, .ok (v, _)) => (st, .ok v)
-  | (st, .error e) => (st, .error e)
+namespace M
+def run {α} (m : M α) (st : St) : St × Except Err α := m st
+def pure {α} (a : α) : M α := fun st => (st, .ok a)
+def bind {α β} (m : M α) (f : α → M β) : M β := fun st =>
+  match m st with
+  | (st', .ok a) => f a st'
+  | (st', .error e) => (st', .error e)
+/-- `raise` -/
+def throw {α} (e : Err) : M α := fun st => (st, .error e)
+def fail {α} (c : String) : M α := throw ⟨c⟩
+/-- `try: … except Exception as e:` — the outcome as a value; the state is kept -/
+def attempt {α} (m : M α) : M (Except Err α) := fun st =>
+  match m st with
+  | (st', r) => (st', .ok r)
+def lift {α} (r : Except Err α) : M α := fun st => (st, r)
+def logEv (e : Ev) : M Unit := fun st => ({ st with log := st.log ++ [e] }, .ok ())
+def getGvars : M (List (List (String × V))) := fun st => (st, .ok st.gvars)
+def setGvars (g : List (List (String × V))) : M Unit := fun st => ({ st with gvars := g }, .ok ())
+end M
 
-def err {σ} (st : St) (c : String) : Out σ := (st, .error ⟨c⟩)
+instance : Monad M where
+  pure := M.pure
+  bind := M.bind
 
 /-- is the error caught by `except (c₁, …)`? -/
 def caught (p : Prims) (classes : List String) (e : Err) : Bool :=
@@ -180,208 +192,237 @@ def attrGet (attrs : List (String × V)) (k : String) : Option V :=
 def attrSet (attrs : List (String × V)) (k : String) (v : V) : List (String × V) :=
   (k, v) :: attrs.filter (·.1 != k)
 
+/-- call a catalogue callable: the call is logged, then Python's part runs -/
+def callFn (p : Prims) (name kind : String) (args : List V) (kwargs : List (String × V)) : M V := do
+  M.logEv (.call name args)
+  M.lift (p.applyFn kind args kwargs)
+
 section loops
 variable {σ : Type} [ScopeAlg σ]
 
-/-- the recursive evaluator handed to the loops: `scope[glom](target, spec, scope)` -/
-abbrev Rec (σ : Type) := Spec → V → σ → St → Out σ
+/-- the recursive evaluator handed to the loops: `scope[glom](target, spec, scope)`;
+    it returns the value and the (finished) scope of the child frame it ran in -/
+abbrev Rec (σ : Type) := Spec → V → σ → M (V × σ)
+
+/-- `scope = chain_child(scope)` at the top of `_handle_tuple`'s loop: the scope itself while it
+    has no child yet, afterwards its last child's scope re-wired by `chain` -/
+def nextScope (cur : σ) (last : Option σ) : σ :=
+  match last with
+  | Option.none => cur
+  | some c => chain cur c
 
 /-- `_handle_tuple`: each step is evaluated in the scope `chain_child` hands on -/
-def tupleLoop (rec : Rec σ) : List Spec → V → σ → Option σ → St → St × Except Err V
-  | [], res, _, _, st => (st, .ok res)
-  | sub :: rest, res, cur, last, st =>
-    let sc := match last with
-      | Option.none => cur
-      | some c => chain cur c
-    match rec sub res sc st with
-    | (st', .error e) => (st', .error e)
-    | (st', .ok (nxt, c')) =>
-      match nxt with
-      | .skip => tupleLoop rec rest res sc (some c') st'
-      | .stop => (st', .ok res)
-      | _ => tupleLoop rec rest nxt sc (some c') st'
+def tupleLoop (rec : Rec σ) : List Spec → V → σ → Option σ → M V
+  | [], res, _, _ => pure res
+  | sub :: rest, res, cur, last => do
+    let sc := nextScope cur last
+    let r ← rec sub res sc
+    match r.1 with
+    | .skip => tupleLoop rec rest res sc (some r.2)
+    | .stop => pure res
+    | nxt => tupleLoop rec rest nxt sc (some r.2)
+
+/-- is a dict-spec field evaluated as a spec (`type(field) in (Spec, TType)`)? -/
+def Spec.isComputedKey : Spec → Bool
+  | .t _ | .sRead .. | .sGlobRead _ | .sVarRead .. | .sBind _ | .aBind _ | .aGlob _ | .aVar .. | .specW .. => true
+  | _ => false
 
 /-- `_handle_dict` (auto mode): value first, SKIP test, then a computed key -/
 def dictLoop (p : Prims) (rec : Rec σ) (target : V) (sc : σ) :
-    List (Spec × Spec) → List (V × V) → St → St × Except Err (List (V × V))
-  | [], acc, st => (st, .ok acc)
-  | (field, sub) :: rest, acc, st =>
-    match rec sub target sc st with
-    | (st', .error e) => (st', .error e)
-    | (st', .ok (.skip, _)) => dictLoop p rec target sc rest acc st'
-    | (st', .ok (val, _)) =>
-      match field with
-      | .t _ | .sRead .. | .sGlobRead _ | .sVarRead .. | .sBind _ | .aBind _ | .aGlob _ | .aVar .. | .specW .. =>
-        match rec field target sc st' with
-        | (st'', .error e) => (st'', .error e)
-        | (st'', .ok (k, _)) =>
-          if p.hashable k then dictLoop p rec target sc rest (dictSet p acc k val) st''
-          else (st'', .error ⟨"TypeError"⟩)
-      | _ =>
+    List (Spec × Spec) → List (V × V) → M (List (V × V))
+  | [], acc => pure acc
+  | (field, sub) :: rest, acc => do
+    let r ← rec sub target sc
+    match r.1 with
+    | .skip => dictLoop p rec target sc rest acc
+    | val =>
+      if field.isComputedKey then do
+        let k ← rec field target sc
+        if p.hashable k.1 then dictLoop p rec target sc rest (dictSet p acc k.1 val)
+        else M.fail "TypeError"
+      else
         match reify field with
-        | some k => dictLoop p rec target sc rest (dictSet p acc k val) st'
-        | Option.none => (st', .error ⟨"Unsupported"⟩)
+        | some k => dictLoop p rec target sc rest (dictSet p acc k val)
+        | Option.none => M.fail "Unsupported"
 
 /-- `_handle_list`: map the sub-spec over the iteration; SKIP drops, STOP ends -/
-def listLoop (rec : Rec σ) (sub : Spec) (sc : σ) : List V → List V → St → St × Except Err (List V)
-  | [], acc, st => (st, .ok acc)
-  | item :: rest, acc, st =>
-    match rec sub item sc st with
-    | (st', .error e) => (st', .error e)
-    | (st', .ok (.skip, _)) => listLoop rec sub sc rest acc st'
-    | (st', .ok (.stop, _)) => (st', .ok acc)
-    | (st', .ok (v, _)) => listLoop rec sub sc rest (acc ++ [v]) st'
+def listLoop (rec : Rec σ) (sub : Spec) (sc : σ) : List V → List V → M (List V)
+  | [], acc => pure acc
+  | item :: rest, acc => do
+    let r ← rec sub item sc
+    match r.1 with
+    | .skip => listLoop rec sub sc rest acc
+    | .stop => pure acc
+    | v => listLoop rec sub sc rest (acc ++ [v])
 
 /-- evaluate every spec of a list against the same target in the same scope
-    (FILL / argument mode containers, Invoke.specs, And) -/
-def mapLoop (rec : Rec σ) (target : V) (sc : σ) : List Spec → List V → St → St × Except Err (List V)
-  | [], acc, st => (st, .ok acc)
-  | s :: rest, acc, st =>
-    match rec s target sc st with
-    | (st', .error e) => (st', .error e)
-    | (st', .ok (v, _)) => mapLoop rec target sc rest (acc ++ [v]) st'
+    (FILL / argument mode containers, Invoke.specs) -/
+def mapLoop (rec : Rec σ) (target : V) (sc : σ) : List Spec → List V → M (List V)
+  | [], acc => pure acc
+  | s :: rest, acc => do
+    let r ← rec s target sc
+    mapLoop rec target sc rest (acc ++ [r.1])
 
 /-- `{recurse(k): recurse(v) for k, v in spec.items()}` -/
 def pairLoop (p : Prims) (rec : Rec σ) (target : V) (sc : σ) :
-    List (Spec × Spec) → List (V × V) → St → St × Except Err (List (V × V))
-  | [], acc, st => (st, .ok acc)
-  | (ks, vs) :: rest, acc, st =>
-    match rec ks target sc st with
-    | (st', .error e) => (st', .error e)
-    | (st', .ok (k, _)) =>
-      match rec vs target sc st' with
-      | (st'', .error e) => (st'', .error e)
-      | (st'', .ok (v, _)) =>
-        if p.hashable k then pairLoop p rec target sc rest (dictSet p acc k v) st''
-        else (st'', .error ⟨"TypeError"⟩)
+    List (Spec × Spec) → List (V × V) → M (List (V × V))
+  | [], acc => pure acc
+  | (ks, vs) :: rest, acc => do
+    let k ← rec ks target sc
+    let v ← rec vs target sc
+    if p.hashable k.1 then pairLoop p rec target sc rest (dictSet p acc k.1 v.1)
+    else M.fail "TypeError"
 
 /-- keyword bindings evaluated one after the other (`S(k=…)`, `Let`, Invoke kwargs) -/
 def kwLoop (rec : Rec σ) (target : V) (sc : σ) :
-    List (String × Spec) → List (String × V) → St → St × Except Err (List (String × V))
-  | [], acc, st => (st, .ok acc)
-  | (k, s) :: rest, acc, st =>
-    match rec s target sc st with
-    | (st', .error e) => (st', .error e)
-    | (st', .ok (v, _)) => kwLoop rec target sc rest (acc ++ [(k, v)]) st'
+    List (String × Spec) → List (String × V) → M (List (String × V))
+  | [], acc => pure acc
+  | (k, s) :: rest, acc => do
+    let r ← rec s target sc
+    kwLoop rec target sc rest (acc ++ [(k, r.1)])
 
-def skipFunc (p : Prims) (sk : Skip) (v : V) (st : St) : St × Except Err Bool :=
+def skipFunc (p : Prims) (sk : Skip) (v : V) : M Bool :=
   match sk with
-  | .never => (st, .ok false)
-  | .pred n k =>
-    let st' := { st with log := st.log ++ [.call n [v]] }
-    match p.applyFn k [v] [] with
-    | .ok r => (st', .ok (p.truthy r))
-    | .error e => (st', .error e)
-  | .anyOf vs => (st, .ok (vs.any (fun x => p.eq x v)))
-  | .eq x => (st, .ok (p.eq v x))
+  | .never => pure false
+  | .pred n k => do
+    let r ← callFn p n k [v] []
+    pure (p.truthy r)
+  | .anyOf vs => pure (vs.any (fun x => p.eq x v))
+  | .eq x => pure (p.eq v x)
 
 /-- `Coalesce.glomit`'s loop: `some v` = a sub-spec produced a value that is not skipped -/
 def coalesceLoop (p : Prims) (rec : Rec σ) (target : V) (sc : σ) (sk : Skip) (skipExc : List String) :
-    List Spec → St → St × Except Err (Option V)
-  | [], st => (st, .ok Option.none)
-  | sub :: rest, st =>
-    match rec sub target sc st with
-    | (st', .error e) =>
-      if caught p skipExc e then coalesceLoop p rec target sc sk skipExc rest st'
-      else (st', .error e)
-    | (st', .ok (ret, _)) =>
-      match skipFunc p sk ret st' with
-      | (st'', .error e) => (st'', .error e)
-      | (st'', .ok true) => coalesceLoop p rec target sc sk skipExc rest st''
-      | (st'', .ok false) => (st'', .ok (some ret))
+    List Spec → M (Option V)
+  | [] => pure Option.none
+  | sub :: rest => do
+    match ← M.attempt (rec sub target sc) with
+    | .error e =>
+      if caught p skipExc e then coalesceLoop p rec target sc sk skipExc rest else M.throw e
+    | .ok r => do
+      if ← skipFunc p sk r.1 then coalesceLoop p rec target sc sk skipExc rest
+      else pure (some r.1)
 
 /-- `And._glomit`: every child on the same target, last result -/
-def andLoop (rec : Rec σ) (target : V) (sc : σ) : List Spec → V → St → St × Except Err V
-  | [], res, st => (st, .ok res)
-  | c :: rest, _, st =>
-    match rec c target sc st with
-    | (st', .error e) => (st', .error e)
-    | (st', .ok (v, _)) => andLoop rec target sc rest v st'
+def andLoop (rec : Rec σ) (target : V) (sc : σ) : List Spec → V → M V
+  | [], res => pure res
+  | c :: rest, _ => do
+    let r ← rec c target sc
+    andLoop rec target sc rest r.1
 
 /-- `Or._glomit`: first child that passes; the last child's error propagates -/
-def orLoop (p : Prims) (rec : Rec σ) (target : V) (sc : σ) : List Spec → St → St × Except Err V
-  | [], st => (st, .error ⟨"ValueError"⟩)          -- `_Bool.__init__` rejects an empty Or
-  | [c], st =>
-    match rec c target sc st with
-    | (st', .error e) => (st', .error e)
-    | (st', .ok (v, _)) => (st', .ok v)
-  | c :: rest, st =>
-    match rec c target sc st with
-    | (st', .error e) =>
-      if p.isSub e.cls "GlomError" then orLoop p rec target sc rest st' else (st', .error e)
-    | (st', .ok (v, _)) => (st', .ok v)
+def orLoop (p : Prims) (rec : Rec σ) (target : V) (sc : σ) : List Spec → M V
+  | [] => M.fail "ValueError"                      -- `_Bool.__init__` rejects an empty Or
+  | [c] => do
+    let r ← rec c target sc
+    pure r.1
+  | c :: rest => do
+    match ← M.attempt (rec c target sc) with
+    | .error e => if p.isSub e.cls "GlomError" then orLoop p rec target sc rest else M.throw e
+    | .ok r => pure r.1
 
 /-- `Switch.glomit`: the value spec of the first case whose key spec passes,
     evaluated in the scope chained after that key -/
-def switchLoop (p : Prims) (rec : Rec σ) (target : V) (sc : σ) :
-    List (Spec × Spec) → St → St × Except Err (Option V)
-  | [], st => (st, .ok Option.none)
-  | (ks, vs) :: rest, st =>
-    match rec ks target sc st with
-    | (st', .error e) =>
-      if p.isSub e.cls "GlomError" then switchLoop p rec target sc rest st' else (st', .error e)
-    | (st', .ok (_, c)) =>
-      match rec vs target (chain sc c) st' with
-      | (st'', .error e) => (st'', .error e)
-      | (st'', .ok (v, _)) => (st'', .ok (some v))
+def switchLoop (p : Prims) (rec : Rec σ) (target : V) (sc : σ) : List (Spec × Spec) → M (Option V)
+  | [] => pure Option.none
+  | (ks, vs) :: rest => do
+    match ← M.attempt (rec ks target sc) with
+    | .error e => if p.isSub e.cls "GlomError" then switchLoop p rec target sc rest else M.throw e
+    | .ok k => do
+      let v ← rec vs target (chain sc k.2)
+      pure (some v.1)
 
 /-- element-wise matching of list/set targets: each item against the first alternative it matches -/
-def altLoop (p : Prims) (rec : Rec σ) (sc : σ) (item : V) :
-    List Spec → Option Err → St → St × Except Err V
-  | [], last, st => (st, .error (last.getD ⟨"MatchError"⟩))
-  | c :: rest, _, st =>
-    match rec c item sc st with
-    | (st', .ok (v, _)) => (st', .ok v)
-    | (st', .error e) =>
-      if p.isSub e.cls "GlomError" then altLoop p rec sc item rest (some e) st' else (st', .error e)
+def altLoop (p : Prims) (rec : Rec σ) (sc : σ) (item : V) : List Spec → Option Err → M V
+  | [], last => M.throw (last.getD ⟨"MatchError"⟩)
+  | c :: rest, _ => do
+    match ← M.attempt (rec c item sc) with
+    | .ok r => pure r.1
+    | .error e => if p.isSub e.cls "GlomError" then altLoop p rec sc item rest (some e) else M.throw e
 
-def matchItemsLoop (p : Prims) (rec : Rec σ) (sc : σ) (alts : List Spec) :
-    List V → List V → St → St × Except Err (List V)
-  | [], acc, st => (st, .ok acc)
-  | item :: rest, acc, st =>
-    match altLoop p rec sc item alts Option.none st with
-    | (st', .error e) => (st', .error e)
-    | (st', .ok v) => matchItemsLoop p rec sc alts rest (acc ++ [v]) st'
+def matchItemsLoop (p : Prims) (rec : Rec σ) (sc : σ) (alts : List Spec) : List V → List V → M (List V)
+  | [], acc => pure acc
+  | item :: rest, acc => do
+    let v ← altLoop p rec sc item alts Option.none
+    matchItemsLoop p rec sc alts rest (acc ++ [v])
 
-def zipLoop (rec : Rec σ) (sc : σ) : List V → List Spec → List V → St → St × Except Err (List V)
-  | t :: ts, s :: ss, acc, st =>
-    match rec s t sc st with
-    | (st', .error e) => (st', .error e)
-    | (st', .ok (v, _)) => zipLoop rec sc ts ss (acc ++ [v]) st'
-  | _, _, acc, st => (st, .ok acc)
+def zipLoop (rec : Rec σ) (sc : σ) : List V → List Spec → List V → M (List V)
+  | t :: ts, s :: ss, acc => do
+    let r ← rec s t sc
+    zipLoop rec sc ts ss (acc ++ [r.1])
+  | _, _, acc => pure acc
 
 /-- match-mode `_handle_dict`, inner loop: the first spec key the target key matches;
     the value is matched in the scope chained after that key -/
 def matchKeyLoop (p : Prims) (rec : Rec σ) (sc : σ) (key val : V) :
-    List (Spec × Spec) → St → St × Except Err (Option (V × V × Spec))
-  | [], st => (st, .ok Option.none)
-  | (ks, vs) :: rest, st =>
-    match rec ks key sc st with
-    | (st', .error e) =>
-      if p.isSub e.cls "GlomError" then matchKeyLoop p rec sc key val rest st' else (st', .error e)
-    | (st', .ok (k', c)) =>
-      match rec vs val (chain sc c) st' with
-      | (st'', .error e) => (st'', .error e)
-      | (st'', .ok (v', _)) => (st'', .ok (some (k', v', ks)))
+    List (Spec × Spec) → M (Option (V × V × Spec))
+  | [] => pure Option.none
+  | (ks, vs) :: rest => do
+    match ← M.attempt (rec ks key sc) with
+    | .error e => if p.isSub e.cls "GlomError" then matchKeyLoop p rec sc key val rest else M.throw e
+    | .ok k => do
+      let v ← rec vs val (chain sc k.2)
+      pure (some (k.1, v.1, ks))
 
 def matchDictLoop (p : Prims) (rec : Rec σ) (sc : σ) (spec : List (Spec × Spec)) :
-    List (V × V) → List (V × V) → List Spec → St → St × Except Err (List (V × V) × List Spec)
-  | [], acc, used, st => (st, .ok (acc, used))
-  | (k, v) :: rest, acc, used, st =>
-    match matchKeyLoop p rec sc k v spec st with
-    | (st', .error e) => (st', .error e)
-    | (st', .ok Option.none) => (st', .error ⟨"MatchError"⟩)
-    | (st', .ok (some (k', v', ks))) =>
-      matchDictLoop p rec sc spec rest (dictSet p acc k' v') (ks :: used) st'
+    List (V × V) → List (V × V) → List Spec → M (List (V × V) × List Spec)
+  | [], acc, used => pure (acc, used)
+  | (k, v) :: rest, acc, used => do
+    match ← matchKeyLoop p rec sc k v spec with
+    | Option.none => M.fail "MatchError"
+    | some (k', v', ks) => matchDictLoop p rec sc spec rest (dictSet p acc k' v') (ks :: used)
 
 /-- `Group.glomit`'s item loop (generic part): `last, ret = ret, glom(t, spec)`; STOP returns `last` -/
-def groupLoop (rec : Rec σ) (sub : Spec) (sc : σ) : List V → V → St → St × Except Err V
-  | [], ret, st => (st, .ok ret)
-  | item :: rest, ret, st =>
-    match rec sub item sc st with
-    | (st', .error e) => (st', .error e)
-    | (st', .ok (.stop, _)) => (st', .ok ret)
-    | (st', .ok (v, _)) => groupLoop rec sub sc rest v st'
+def groupLoop (rec : Rec σ) (sub : Spec) (sc : σ) : List V → V → M V
+  | [], ret => pure ret
+  | item :: rest, ret => do
+    let r ← rec sub item sc
+    match r.1 with
+    | .stop => pure ret
+    | v => groupLoop rec sub sc rest v
+
+/-- `arg_val(target, arg, scope)`: MIN_MODE is set on the caller's frame around one `scope[glom]`
+    call and restored afterwards -/
+def argVal (rec : Rec σ) (target : V) (arg : Spec) (sc : σ) : M V := do
+  let r ← rec arg target (setArgMode sc true)
+  pure r.1
+
+/-- string-keyed kwargs of a call: entries of an evaluated dict whose keys are strings -/
+def strKeyed (es : List (V × V)) : List (String × V) :=
+  es.filterMap (fun e => match e.1 with | .str s => some (s, e.2) | _ => Option.none)
+
+/-- `Invoke.glomit`'s loop over its `(op, args, kwargs)` blocks; a keyword is taken only from the
+    freshest constants/specs block that names it (`self._cur_kwargs[k] is kwargs`) -/
+def invokeLoop (rec : Rec σ) (target : V) (sc : σ) :
+    List (String × List Spec × List (String × Spec)) → List V → List (String × V) →
+    M (List V × List (String × V))
+  | [], as, kws => pure (as, kws)
+  | (op, pos, kw) :: rest, as, kws => do
+    let fresh := kw.filter (fun e => !(rest.any (fun b => b.1 != "*" && b.2.2.any (·.1 == e.1))))
+    if op == "*" then do
+      let vs ← mapLoop rec target sc pos []
+      let extra : Option (List V) := match vs with
+        | [] => some []
+        | [.list xs] | [.tuple xs] => some xs
+        | _ => Option.none
+      match extra with
+      | Option.none => M.fail "TypeError"
+      | some xs => do
+        let kvs ← mapLoop rec target sc (kw.map (·.2)) []
+        let upd : Option (List (String × V)) := match kvs with
+          | [] => some []
+          | [.dict _ es] => es.mapM (fun e => match e.1 with | .str k => some (k, e.2) | _ => Option.none)
+          | _ => Option.none
+        match upd with
+        | Option.none => M.fail "TypeError"
+        | some us => invokeLoop rec target sc rest (as ++ xs) (us.foldl (fun acc kv => attrSet acc kv.1 kv.2) kws)
+    else if op == "C" then
+      let vs := pos.filterMap reify
+      let kvs := fresh.filterMap (fun e => (reify e.2).map (fun v => (e.1, v)))
+      invokeLoop rec target sc rest (as ++ vs) (kvs.foldl (fun acc kv => attrSet acc kv.1 kv.2) kws)
+    else do
+      let vs ← mapLoop rec target sc pos []
+      let kvs ← kwLoop rec target sc fresh []
+      invokeLoop rec target sc rest (as ++ vs) (kvs.foldl (fun acc kv => attrSet acc kv.1 kv.2) kws)
 
 end loops
 
@@ -401,390 +442,309 @@ def specEqLit : Spec → Spec → Bool
   | .lit a, .lit b => a == b
   | _, _ => false
 
+/-- read / write an attribute of a ScopeVars object -/
+def gvarGet (id : Nat) (name : String) : M V := do
+  match ((← M.getGvars)[id]?).bind (attrGet · name) with
+  | some v => pure v
+  | Option.none => M.fail "PathAccessError"
+
+def gvarSet (id : Nat) (name : String) (v : V) : M Unit := do
+  let g ← M.getGvars
+  match g[id]? with
+  | some attrs => M.setGvars (g.set id (attrSet attrs name v))
+  | Option.none => M.fail "PathAccessError"
+
 section interp
 variable {σ : Type} [ScopeAlg σ]
 
-/-- `arg_val(target, arg, scope)`: MIN_MODE is set on the caller's frame around one `scope[glom]` call -/
-def argVal (rec : Rec σ) (target : V) (arg : Spec) (sc : σ) (st : St) : St × Except Err (V × σ) :=
-  let saved := argMode sc
-  match rec arg target (setArgMode sc true) st with
-  | (st', .error e) => (st', .error e)
-  | (st', .ok (v, _)) => (st', .ok (v, setArgMode sc saved))
+/-- `X.glomit` catching GlomError to return its default through `arg_val` (Match, And, Or) -/
+def withDefault (p : Prims) (rec : Rec σ) (target : V) (dflt : Option Spec) (sc : σ) (m : M V) : M V := do
+  match ← M.attempt m with
+  | .ok v => pure v
+  | .error e =>
+    match dflt with
+    | some d => if p.isSub e.cls "GlomError" then argVal rec target d sc else M.throw e
+    | Option.none => M.throw e
 
-/-- the default of Coalesce / Match / And / Or / Switch: `arg_val(target, default, scope)` -/
-def dfltVal (rec : Rec σ) (target : V) (d : Spec) (sc : σ) (st : St) : Out σ :=
-  match argVal rec target d sc st with
-  | (st', .error e) => (st', .error e)
-  | (st', .ok (v, sc')) => (st', .ok (v, sc'))
+/-- T / glomit objects: `spec.glomit(target, scope)` resp. `_t_eval` for the S and A roots.
+    Returns the value and the spec's own scope afterwards (what a chain continues from). -/
+def glomit (p : Prims) (rec : Rec σ) (spec : Spec) (target : V) (sc : σ) : M (V × σ) :=
+  match spec with
+  | .t steps => do
+    let v ← M.lift (p.tEval steps target)
+    pure (v, sc)
+  | .sRead name steps =>
+    match lookup sc name with
+    | Option.none => M.fail "PathAccessError"
+    | some v => do
+      let r ← M.lift (p.tEval steps v)
+      pure (r, sc)
+  | .sGlobRead name =>
+    match lookup sc "globals" with
+    | some (.vars id) => do
+      let v ← gvarGet id name
+      pure (v, sc)
+    | _ => M.fail "PathAccessError"
+  | .sVarRead var name =>
+    match lookup sc var with
+    | some (.vars id) => do
+      let v ← gvarGet id name
+      pure (v, sc)
+    | _ => M.fail "PathAccessError"
+  | .sBind bs => do
+    -- scope.update({k: arg_val(target, v, scope) for k, v in kwargs.items()})
+    let kvs ← kwLoop (fun s t c => do let v ← argVal rec t s c; pure (v, c)) target sc bs []
+    pure (target, kvs.foldl (fun c kv => bind c kv.1 kv.2) sc)
+  | .aBind name => pure (target, bind sc name target)
+  | .aGlob name =>
+    match lookup sc "globals" with
+    | some (.vars id) => do
+      gvarSet id name target
+      pure (target, sc)
+    | _ => M.fail "PathAccessError"
+  | .aVar var name =>
+    match lookup sc var with
+    | some (.vars id) => do
+      gvarSet id name target
+      pure (target, sc)
+    | some _ => M.fail "AttributeError"
+    | Option.none => M.fail "PathAccessError"
+  | .pipe steps => do
+    let v ← tupleLoop rec steps target sc Option.none
+    pure (v, sc)
+  | .val v => pure (v, sc)
+  | .specW s bindings => do
+    let sc' := bindings.foldl (fun c kv => bind c kv.1 kv.2) sc
+    let r ← rec s target sc'
+    pure (r.1, sc')
+  | .coalesce subs dflt dfltFactory sk skipExc => do
+    match ← coalesceLoop p rec target sc sk skipExc subs with
+    | some v => pure (v, sc)
+    | Option.none =>
+      match dflt, dfltFactory with
+      | some d, _ => do
+        let v ← argVal rec target d sc
+        pure (v, sc)
+      | Option.none, some (n, k) => do
+        let v ← callFn p n k [] []
+        pure (v, sc)
+      | Option.none, Option.none => M.fail "CoalesceError"
+  | .call func args kwargs => do
+    let f ← argVal rec target func sc
+    let a ← argVal rec target args sc
+    let kw ← argVal rec target kwargs sc
+    match f, a, kw with
+    | .fn n k, .tuple as, .dict _ kws => do
+      let v ← callFn p n k as (strKeyed kws)
+      pure (v, sc)
+    | .fn n k, .list as, .dict _ kws => do
+      let v ← callFn p n k as (strKeyed kws)
+      pure (v, sc)
+    | _, _, _ => M.fail "TypeError"
+  | .invoke func funcIsSpec blocks => do
+    let f ← (if funcIsSpec then do
+        let r ← rec func target sc
+        pure r.1
+      else match reify func with
+        | some v => pure v
+        | Option.none => M.fail "TypeError" : M V)
+    let (as, kws) ← invokeLoop rec target sc blocks [] []
+    match f with
+    | .fn n k => do
+      let v ← callFn p n k as kws
+      pure (v, sc)
+    | _ => M.fail "TypeError"
+  | .ref name sub =>
+    match sub with
+    | Option.none =>
+      match lookupRef sc name with
+      | some s => do
+        let r ← rec s target sc
+        pure (r.1, sc)
+      | Option.none => M.fail "KeyError"
+    | some s => do
+      let sc' := bindRef sc name s
+      let r ← rec s target sc'
+      pure (r.1, sc')
+  | .vars defaults => do
+    let g ← M.getGvars
+    M.setGvars (g ++ [defaults])
+    pure (.vars g.length, sc)
+  | .letB bs => do
+    let kvs ← kwLoop rec target sc bs []
+    pure (target, kvs.foldl (fun c kv => bind c kv.1 kv.2) sc)
+  | .auto s => do
+    let sc' := setMode sc .auto
+    let r ← rec s target sc'
+    pure (r.1, sc')
+  | .fill s => do
+    let sc' := setMode sc .fill
+    let r ← rec s target sc'
+    pure (r.1, sc')
+  | .group s => do
+    let sc' := setMode sc .group
+    let items ← M.lift (p.iterate target)
+    let init := match s with
+      | .dict o _ => V.dict o []
+      | .list _ => V.list []
+      | _ => V.none
+    let v ← groupLoop rec s sc' items init
+    pure (v, sc')
+  | .mtch s dflt => do
+    let sc' := setMode sc .mtch
+    let v ← withDefault p rec target dflt sc' (do let r ← rec s target sc'; pure r.1)
+    pure (v, sc')
+  | .and cs dflt => do
+    let v ← withDefault p rec target dflt sc (andLoop rec target sc cs target)
+    pure (v, sc)
+  | .or cs dflt => do
+    let v ← withDefault p rec target dflt sc (orLoop p rec target sc cs)
+    pure (v, sc)
+  | .not c => do
+    match ← M.attempt (rec c target sc) with
+    | .ok _ => M.fail "MatchError"
+    | .error e => if p.isSub e.cls "GlomError" then pure (target, sc) else M.throw e
+  | .switch cases dflt => do
+    match ← switchLoop p rec target sc cases with
+    | some v => pure (v, sc)
+    | Option.none =>
+      match dflt with
+      | some d => do
+        let v ← argVal rec target d sc
+        pure (v, sc)
+      | Option.none => M.fail "MatchError"
+  | .probe id => do
+    M.logEv (.probe id (mode sc))
+    pure (target, sc)
+  | _ => M.fail "Unsupported"
 
-/-- the interpreter: `interp p fuel spec target scope st` is `_glom(target, spec, scope)` -/
-def interp (p : Prims) : Nat → Spec → V → σ → St → Out σ
-  | 0, _, _, _, st => err st "OutOfFuel"
-  | fuel + 1, spec, target, parent, st =>
+/-- `_ArgValuator.mode`: containers rebuilt, everything else literal -/
+def argModeFn (p : Prims) (rec : Rec σ) (spec : Spec) (target : V) (own : σ) : M V :=
+  match spec with
+  | .list xs => do
+    let vs ← mapLoop rec target own xs []
+    pure (.list vs)
+  | .dict false es => do
+    let kvs ← pairLoop p rec target own es []
+    pure (.dict false kvs)
+  | .tuple xs => do
+    let vs ← mapLoop rec target own xs []
+    pure (.tuple vs)
+  | .set fz xs => do
+    let vs ← mapLoop rec target own xs []
+    if vs.all p.hashable then pure (.set fz vs) else M.fail "TypeError"
+  | s => match reify s with
+    | some v => pure v
+    | Option.none => M.fail "Unsupported"
+
+/-- `AUTO` -/
+def autoFn (p : Prims) (rec : Rec σ) (spec : Spec) (target : V) (own : σ) : M V :=
+  match spec with
+  | .str s =>
+    -- Path.from_text(spec) then the 'P' walk (C01); '*' segments are C14's
+    match (s.splitOn ".").foldlM (fun cur seg => p.getSeg cur seg) target with
+    | .ok v => pure v
+    | .error _ => M.fail "PathAccessError"
+  | .dict o es => do
+    let kvs ← dictLoop p rec target own es []
+    pure (.dict o kvs)
+  | .list xs =>
+    match xs with
+    | [] => M.fail "IndexError"
+    | sub :: _ => do
+      let items ← M.lift (p.iterate target)
+      let vs ← listLoop rec sub own items []
+      pure (.list vs)
+  | .tuple xs => tupleLoop rec xs target own Option.none
+  | .fn n k => callFn p n k [target] []
+  | .ty n => M.lift (p.applyTy n target)
+  | _ => M.fail "TypeError"
+
+/-- `FILL` -/
+def fillFn (p : Prims) (rec : Rec σ) (spec : Spec) (target : V) (own : σ) : M V :=
+  match spec with
+  | .dict false es => do
+    let kvs ← pairLoop p rec target own es []
+    pure (.dict false kvs)
+  | .list xs => do
+    let vs ← mapLoop rec target own xs []
+    pure (.list vs)
+  | .tuple xs => do
+    let vs ← mapLoop rec target own xs []
+    pure (.tuple vs)
+  | .set fz xs => do
+    let vs ← mapLoop rec target own xs []
+    if vs.all p.hashable then pure (.set fz vs) else M.fail "TypeError"
+  | .fn n k => callFn p n k [target] []
+  | .ty n => M.lift (p.applyTy n target)
+  | s => match reify s with
+    | some v => pure v
+    | Option.none => M.fail "Unsupported"
+
+/-- `_glom_match` -/
+def matchFn (p : Prims) (rec : Rec σ) (spec : Spec) (target : V) (own : σ) : M V :=
+  match spec with
+  | .ty n => if p.isinstance target n then pure target else M.fail "TypeMatchError"
+  | .dict _ es =>
+    match target with
+    | .dict _ tes => do
+      let (acc, used) ← matchDictLoop p rec own es tes [] []
+      if (requiredKeys es).all (fun k => used.any (specEqLit k)) then pure (.dict false acc)
+      else M.fail "MatchError"
+    | _ => M.fail "TypeMatchError"
+  | .list alts =>
+    match target with
+    | .list items => do
+      let vs ← matchItemsLoop p rec own alts items []
+      pure (.list vs)
+    | _ => M.fail "TypeMatchError"
+  | .set fz alts =>
+    match target with
+    | .set fz' items =>
+      if fz == fz' then do
+        let vs ← matchItemsLoop p rec own alts items []
+        pure (.set fz vs)
+      else M.fail "TypeMatchError"
+    | _ => M.fail "TypeMatchError"
+  | .tuple xs =>
+    match target with
+    | .tuple items =>
+      if items.length != xs.length then M.fail "MatchError"
+      else do
+        let vs ← zipLoop rec own items xs []
+        pure (.tuple vs)
+    | _ => M.fail "TypeMatchError"
+  | .fn n k => do
+    match ← M.attempt (callFn p n k [target] []) with
+    | .ok v => if p.truthy v then pure target else M.fail "MatchError"
+    | .error _ => M.fail "MatchError"
+  | s => match reify s with
+    | some v => if p.eq target v then pure target else M.fail "MatchError"
+    | Option.none => M.fail "Unsupported"
+
+/-- `GROUP`, generic part (accumulating dict / list specs are C16's model) -/
+def groupFn (p : Prims) (spec : Spec) (target : V) : M V :=
+  match spec with
+  | .fn n k => callFn p n k [target] []
+  | .ty n => M.lift (p.applyTy n target)
+  | _ => M.fail "Unsupported"
+
+/-- the interpreter: `interp p fuel spec target scope` is `_glom(target, spec, scope)` -/
+def interp (p : Prims) : Nat → Spec → V → σ → M (V × σ)
+  | 0, _, _, _ => M.fail "OutOfFuel"
+  | fuel + 1, spec, target, parent =>
     let rec' : Rec σ := interp p fuel
     let own := child parent                       -- scope.new_child({MODE: pmap[MODE], …})
     if spec.isSpecLike then
-      let sc := setArgMode own false              -- scope[MIN_MODE] = None
-      match spec with
-      | .t steps =>
-        match p.tEval steps target with
-        | .ok v => (st, .ok (v, sc))
-        | .error e => (st, .error e)
-      | .sRead name steps =>
-        match lookup sc name with
-        | Option.none => err st "PathAccessError"
-        | some v =>
-          match p.tEval steps v with
-          | .ok r => (st, .ok (r, sc))
-          | .error e => (st, .error e)
-      | .sGlobRead name =>
-        match lookup sc "globals" with
-        | some (.vars id) =>
-          match (st.gvars[id]?).bind (attrGet · name) with
-          | some v => (st, .ok (v, sc))
-          | Option.none => err st "PathAccessError"
-        | _ => err st "PathAccessError"
-      | .sVarRead var name =>
-        match lookup sc var with
-        | some (.vars id) =>
-          match (st.gvars[id]?).bind (attrGet · name) with
-          | some v => (st, .ok (v, sc))
-          | Option.none => err st "PathAccessError"
-        | some _ => err st "PathAccessError"
-        | Option.none => err st "PathAccessError"
-      | .sBind bs =>
-        -- scope.update({k: arg_val(target, v, scope) for k, v in kwargs.items()})
-        match kwLoop (fun s t c st => dfltVal rec' t s c st) target sc bs [] st with
-        | (st', .error e) => (st', .error e)
-        | (st', .ok kvs) => (st', .ok (target, kvs.foldl (fun c kv => bind c kv.1 kv.2) sc))
-      | .aBind name => (st, .ok (target, bind sc name target))
-      | .aGlob name =>
-        match lookup sc "globals" with
-        | some (.vars id) =>
-          match st.gvars[id]? with
-          | some attrs => ({ st with gvars := st.gvars.set id (attrSet attrs name target) }, .ok (target, sc))
-          | Option.none => err st "PathAccessError"
-        | _ => err st "PathAccessError"
-      | .aVar var name =>
-        match lookup sc var with
-        | some (.vars id) =>
-          match st.gvars[id]? with
-          | some attrs => ({ st with gvars := st.gvars.set id (attrSet attrs name target) }, .ok (target, sc))
-          | Option.none => err st "PathAccessError"
-        | some _ => err st "AttributeError"
-        | Option.none => err st "PathAccessError"
-      | .pipe steps => withScope (tupleLoop rec' steps target sc Option.none st) sc
-      | .val v => (st, .ok (v, sc))
-      | .specW s bindings =>
-        let sc' := bindings.foldl (fun c kv => bind c kv.1 kv.2) sc
-        withScope (valOf (rec' s target sc' st)) sc'
-      | .coalesce subs dflt dfltFactory sk skipExc =>
-        match coalesceLoop p rec' target sc sk skipExc subs st with
-        | (st', .error e) => (st', .error e)
-        | (st', .ok (some v)) => (st', .ok (v, sc))
-        | (st', .ok Option.none) =>
-          match dflt, dfltFactory with
-          | some d, _ => dfltVal rec' target d sc st'
-          | Option.none, some (n, k) =>
-            let st'' := { st' with log := st'.log ++ [.call n []] }
-            match p.applyFn k [] [] with
-            | .ok v => (st'', .ok (v, sc))
-            | .error e => (st'', .error e)
-          | Option.none, Option.none => err st' "CoalesceError"
-      | .call func args kwargs =>
-        match argVal rec' target func sc st with
-        | (st1, .error e) => (st1, .error e)
-        | (st1, .ok (f, sc1)) =>
-          match argVal rec' target args sc1 st1 with
-          | (st2, .error e) => (st2, .error e)
-          | (st2, .ok (a, sc2)) =>
-            match argVal rec' target kwargs sc2 st2 with
-            | (st3, .error e) => (st3, .error e)
-            | (st3, .ok (kw, sc3)) =>
-              match f, a, kw with
-              | .fn n k, .tuple as, .dict _ kws =>
-                let kws' := kws.filterMap (fun e => match e.1 with | .str s => some (s, e.2) | _ => Option.none)
-                let st4 := { st3 with log := st3.log ++ [.call n as] }
-                (match p.applyFn k as kws' with
-                 | .ok v => (st4, .ok (v, sc3))
-                 | .error e => (st4, .error e))
-              | .fn n k, .list as, .dict _ kws =>
-                let kws' := kws.filterMap (fun e => match e.1 with | .str s => some (s, e.2) | _ => Option.none)
-                let st4 := { st3 with log := st3.log ++ [.call n as] }
-                (match p.applyFn k as kws' with
-                 | .ok v => (st4, .ok (v, sc3))
-                 | .error e => (st4, .error e))
-              | _, _, _ => err st3 "TypeError"
-      | .invoke func funcIsSpec blocks =>
-        let fr : St × Except Err V :=
-          if funcIsSpec then
-            match rec' func target sc st with
-            | (st', .error e) => (st', .error e)
-            | (st', .ok (v, _)) => (st', .ok v)
-          else match reify func with
-            | some v => (st, .ok v)
-            | Option.none => (st, .error ⟨"TypeError"⟩)
-        match fr with
-        | (st1, .error e) => (st1, .error e)
-        | (st1, .ok f) =>
-          -- blocks in order: 'C' literal, 'S' evaluated; kwargs only from the freshest block
-          let rec goBlocks : List (String × List Spec × List (String × Spec)) → List V →
-              List (String × V) → St → St × Except Err (List V × List (String × V))
-            | [], as, kws, s => (s, .ok (as, kws))
-            | (op, pos, kw) :: rest, as, kws, s =>
-              let fresh := kw.filter (fun e => !(rest.any (fun b => b.1 != "*" && b.2.2.any (·.1 == e.1))))
-              if op == "*" then
-                match mapLoop rec' target sc pos [] s with
-                | (s', .error e) => (s', .error e)
-                | (s', .ok vs) =>
-                  let extra : Option (List V) := match vs with
-                    | [] => some []
-                    | [.list xs] | [.tuple xs] => some xs
-                    | _ => Option.none
-                  match extra with
-                  | Option.none => (s', .error ⟨"TypeError"⟩)
-                  | some xs =>
-                    match mapLoop rec' target sc (kw.map (·.2)) [] s' with
-                    | (s'', .error e) => (s'', .error e)
-                    | (s'', .ok kvs) =>
-                      let upd : Option (List (String × V)) := match kvs with
-                        | [] => some []
-                        | [.dict _ es] => es.mapM (fun e => match e.1 with | .str k => some (k, e.2) | _ => Option.none)
-                        | _ => Option.none
-                      match upd with
-                      | Option.none => (s'', .error ⟨"TypeError"⟩)
-                      | some us => goBlocks rest (as ++ xs) (us.foldl (fun acc kv => attrSet acc kv.1 kv.2) kws) s''
-              else if op == "C" then
-                let vs := pos.filterMap reify
-                let kvs := fresh.filterMap (fun e => (reify e.2).map (fun v => (e.1, v)))
-                goBlocks rest (as ++ vs) (kvs.foldl (fun acc kv => attrSet acc kv.1 kv.2) kws) s
-              else
-                match mapLoop rec' target sc pos [] s with
-                | (s', .error e) => (s', .error e)
-                | (s', .ok vs) =>
-                  match kwLoop rec' target sc fresh [] s' with
-                  | (s'', .error e) => (s'', .error e)
-                  | (s'', .ok kvs) =>
-                    goBlocks rest (as ++ vs) (kvs.foldl (fun acc kv => attrSet acc kv.1 kv.2) kws) s''
-          match goBlocks blocks [] [] st1 with
-          | (st2, .error e) => (st2, .error e)
-          | (st2, .ok (as, kws)) =>
-            match f with
-            | .fn n k =>
-              let st3 := { st2 with log := st2.log ++ [.call n as] }
-              (match p.applyFn k as kws with
-               | .ok v => (st3, .ok (v, sc))
-               | .error e => (st3, .error e))
-            | _ => err st2 "TypeError"
-      | .ref name sub =>
-        match sub with
-        | Option.none =>
-          match lookupRef sc name with
-          | some s => withScope (valOf (rec' s target sc st)) sc
-          | Option.none => err st "KeyError"
-        | some s => withScope (valOf (rec' s target (bindRef sc name s) st)) (bindRef sc name s)
-      | .vars defaults =>
-        ({ st with gvars := st.gvars ++ [defaults] }, .ok (.vars st.gvars.length, sc))
-      | .letB bs =>
-        match kwLoop rec' target sc bs [] st with
-        | (st', .error e) => (st', .error e)
-        | (st', .ok kvs) => (st', .ok (target, kvs.foldl (fun c kv => bind c kv.1 kv.2) sc))
-      | .auto s => withScope (valOf (rec' s target (setMode sc .auto) st)) (setMode sc .auto)
-      | .fill s => withScope (valOf (rec' s target (setMode sc .fill) st)) (setMode sc .fill)
-      | .group s =>
-        let sc' := setMode sc .group
-        match p.iterate target with
-        | .error e => (st, .error e)
-        | .ok items =>
-          let init := match s with
-            | .dict o _ => V.dict o []
-            | .list _ => V.list []
-            | _ => V.none
-          match groupLoop rec' s sc' items init st with
-          | (st', .error e) => (st', .error e)
-          | (st', .ok v) => (st', .ok (v, sc'))
-      | .mtch s dflt =>
-        let sc' := setMode sc .mtch
-        match rec' s target sc' st with
-        | (st', .ok (v, _)) => (st', .ok (v, sc'))
-        | (st', .error e) =>
-          match dflt with
-          | some d => if p.isSub e.cls "GlomError" then dfltVal rec' target d sc' st' else (st', .error e)
-          | Option.none => (st', .error e)
-      | .and cs dflt =>
-        match andLoop rec' target sc cs target st with
-        | (st', .ok v) => (st', .ok (v, sc))
-        | (st', .error e) =>
-          match dflt with
-          | some d => if p.isSub e.cls "GlomError" then dfltVal rec' target d sc st' else (st', .error e)
-          | Option.none => (st', .error e)
-      | .or cs dflt =>
-        match orLoop p rec' target sc cs st with
-        | (st', .ok v) => (st', .ok (v, sc))
-        | (st', .error e) =>
-          match dflt with
-          | some d => if p.isSub e.cls "GlomError" then dfltVal rec' target d sc st' else (st', .error e)
-          | Option.none => (st', .error e)
-      | .not c =>
-        match rec' c target sc st with
-        | (st', .ok _) => err st' "MatchError"
-        | (st', .error e) =>
-          if p.isSub e.cls "GlomError" then (st', .ok (target, sc)) else (st', .error e)
-      | .switch cases dflt =>
-        match switchLoop p rec' target sc cases st with
-        | (st', .error e) => (st', .error e)
-        | (st', .ok (some v)) => (st', .ok (v, sc))
-        | (st', .ok Option.none) =>
-          match dflt with
-          | some d => dfltVal rec' target d sc st'
-          | Option.none => err st' "MatchError"
-      | .probe id =>
-        ({ st with log := st.log ++ [.probe id (mode sc)] }, .ok (target, sc))
-      | _ => err st "Unsupported"
-    else if argMode own then
-      -- `_ArgValuator.mode`: containers rebuilt, everything else literal
-      match spec with
-      | .list xs =>
-        match mapLoop rec' target own xs [] st with
-        | (st', .error e) => (st', .error e)
-        | (st', .ok vs) => (st', .ok (.list vs, own))
-      | .dict o es =>
-        match pairLoop p rec' target own es [] st with
-        | (st', .error e) => (st', .error e)
-        | (st', .ok kvs) => (st', .ok (.dict o kvs, own))
-      | .tuple xs =>
-        match mapLoop rec' target own xs [] st with
-        | (st', .error e) => (st', .error e)
-        | (st', .ok vs) => (st', .ok (.tuple vs, own))
-      | .set fz xs =>
-        match mapLoop rec' target own xs [] st with
-        | (st', .error e) => (st', .error e)
-        | (st', .ok vs) => if vs.all p.hashable then (st', .ok (.set fz vs, own)) else err st' "TypeError"
-      | s => match reify s with
-        | some v => (st, .ok (v, own))
-        | Option.none => err st "Unsupported"
-    else
-      match mode own with
-      | .auto =>
-        match spec with
-        | .str s =>
-          -- Path.from_text(spec) then the 'P' walk (C01); '*' segments are C14's
-          match (s.splitOn ".").foldlM (fun cur seg => p.getSeg cur seg) target with
-          | .ok v => (st, .ok (v, own))
-          | .error _ => err st "PathAccessError"
-        | .dict o es =>
-          match dictLoop p rec' target own es [] st with
-          | (st', .error e) => (st', .error e)
-          | (st', .ok kvs) => (st', .ok (.dict o kvs, own))
-        | .list xs =>
-          match xs with
-          | [] => err st "IndexError"
-          | sub :: _ =>
-            match p.iterate target with
-            | .error e => (st, .error e)
-            | .ok items =>
-              match listLoop rec' sub own items [] st with
-              | (st', .error e) => (st', .error e)
-              | (st', .ok vs) => (st', .ok (.list vs, own))
-        | .tuple xs => withScope (tupleLoop rec' xs target own Option.none st) own
-        | .fn n k =>
-          let st' := { st with log := st.log ++ [.call n [target]] }
-          (match p.applyFn k [target] [] with
-           | .ok v => (st', .ok (v, own))
-           | .error e => (st', .error e))
-        | .ty n =>
-          (match p.applyTy n target with
-           | .ok v => (st, .ok (v, own))
-           | .error e => (st, .error e))
-        | _ => err st "TypeError"
-      | .fill =>
-        match spec with
-        | .dict _ es =>
-          match pairLoop p rec' target own es [] st with
-          | (st', .error e) => (st', .error e)
-          | (st', .ok kvs) => (st', .ok (.dict false kvs, own))
-        | .list xs =>
-          match mapLoop rec' target own xs [] st with
-          | (st', .error e) => (st', .error e)
-          | (st', .ok vs) => (st', .ok (.list vs, own))
-        | .tuple xs =>
-          match mapLoop rec' target own xs [] st with
-          | (st', .error e) => (st', .error e)
-          | (st', .ok vs) => (st', .ok (.tuple vs, own))
-        | .set fz xs =>
-          match mapLoop rec' target own xs [] st with
-          | (st', .error e) => (st', .error e)
-          | (st', .ok vs) => if vs.all p.hashable then (st', .ok (.set fz vs, own)) else err st' "TypeError"
-        | .fn n k =>
-          let st' := { st with log := st.log ++ [.call n [target]] }
-          (match p.applyFn k [target] [] with
-           | .ok v => (st', .ok (v, own))
-           | .error e => (st', .error e))
-        | .ty n =>
-          (match p.applyTy n target with
-           | .ok v => (st, .ok (v, own))
-           | .error e => (st, .error e))
-        | s => match reify s with
-          | some v => (st, .ok (v, own))
-          | Option.none => err st "Unsupported"
-      | .mtch =>
-        -- `_glom_match`
-        match spec with
-        | .ty n =>
-          if p.isinstance target n then (st, .ok (target, own)) else err st "TypeMatchError"
-        | .dict _ es =>
-          match target with
-          | .dict _ tes =>
-            match matchDictLoop p rec' own es tes [] [] st with
-            | (st', .error e) => (st', .error e)
-            | (st', .ok (acc, used)) =>
-              if (requiredKeys es).all (fun k => used.any (specEqLit k)) then (st', .ok (.dict false acc, own))
-              else err st' "MatchError"
-          | _ => err st "TypeMatchError"
-        | .list alts =>
-          match target with
-          | .list items =>
-            match matchItemsLoop p rec' own alts items [] st with
-            | (st', .error e) => (st', .error e)
-            | (st', .ok vs) => (st', .ok (.list vs, own))
-          | _ => err st "TypeMatchError"
-        | .set fz alts =>
-          match target with
-          | .set fz' items =>
-            if fz == fz' then
-              match matchItemsLoop p rec' own alts items [] st with
-              | (st', .error e) => (st', .error e)
-              | (st', .ok vs) => (st', .ok (.set fz vs, own))
-            else err st "TypeMatchError"
-          | _ => err st "TypeMatchError"
-        | .tuple xs =>
-          match target with
-          | .tuple items =>
-            if items.length != xs.length then err st "MatchError"
-            else match zipLoop rec' own items xs [] st with
-              | (st', .error e) => (st', .error e)
-              | (st', .ok vs) => (st', .ok (.tuple vs, own))
-          | _ => err st "TypeMatchError"
-        | .fn n k =>
-          let st' := { st with log := st.log ++ [.call n [target]] }
-          (match p.applyFn k [target] [] with
-           | .ok v => if p.truthy v then (st', .ok (target, own)) else err st' "MatchError"
-           | .error _ => err st' "MatchError")
-        | s => match reify s with
-          | some v => if p.eq target v then (st, .ok (target, own)) else err st "MatchError"
-          | Option.none => err st "Unsupported"
-      | .group =>
-        match spec with
-        | .fn n k =>
-          let st' := { st with log := st.log ++ [.call n [target]] }
-          (match p.applyFn k [target] [] with
-           | .ok v => (st', .ok (v, own))
-           | .error e => (st', .error e))
-        | .ty n =>
-          (match p.applyTy n target with
-           | .ok v => (st, .ok (v, own))
-           | .error e => (st, .error e))
-        | _ => err st "Unsupported"          -- accumulating dict/list specs: C16's model
+      glomit p rec' spec target (setArgMode own false)      -- scope[MIN_MODE] = None
+    else do
+      let v ← (if argMode own then argModeFn p rec' spec target own
+        else match mode own with
+          | .auto => autoFn p rec' spec target own
+          | .fill => fillFn p rec' spec target own
+          | .mtch => matchFn p rec' spec target own
+          | .group => groupFn p spec target)
+      pure (v, own)
 
 end interp
 
